@@ -47,7 +47,10 @@ class Contract:
     allow_unsupported: bool = False
     domain: List[str] = field(default_factory=list)        # sub-domain on which the code meets `ensures`
     returns_when: List[str] = field(default_factory=list)  # pre-state conditions under which it must not raise
+    watch: List[str] = field(default_factory=list)         # spec expressions shown in counter-models
+    tier: str = 'quick'              # 'thorough': verified only by the thorough command (slow)
     verify_only: bool = False        # never used at call sites
+    options: Dict[str, Any] = field(default_factory=dict)   # engine options for this function
     vname: str = ''
     trusted_ensures: Dict[str, str] = field(default_factory=dict)  # assumed at call sites, checked natively only
 
